@@ -23,7 +23,7 @@ MODELLED = ("Algorithm/Parameters range checks, Parameters.compute/residue/_matr
             "_matrices, and operator.index coercions are validated only")
 ASSUMPTIONS = ["data words presented to the hardware fit the data_width-bit `data` signal (the simulator truncates otherwise)",
                "words are non-negative Python ints (negative words raise ValueError in compute; modelled as out of range)"]
-SHARD = 120
+SHARD = 250
 
 DATA = os.path.join(VERIF, "data", "crc_reveng.json")
 CHECK_MSG = list(b"123456789")
